@@ -138,10 +138,15 @@ def check_c33(rep, thorough):
              "and with the code's own direct evaluation; plus seeded random recorded calls whose integer characteristic polynomials are validated by TLC")
     rep.assume("K-points and cell sizes are chosen so that every corner lies on the quarter grid of the reciprocal cell (phases are powers of i); "
                "the k.p system is the lattice Hamiltonian as a function of reduced k; phonon-flagged systems reuse the real-space cases")
-    runs = [("c33_corners", dict(NWS="{1, 2}" if thorough else "{1}", MAXHOPS=1, MAXHOPS2=1, MAXSOC=1 if thorough else 0, KDIRS=2, NGRIDS=5 if thorough else 2)),
-            ("c33_corners_3d", dict(KINDS='{"R", "KP"}', NWS="{1, 2}" if thorough else "{2}", MAXHOPS=1, KDIRS=3, NGRIDS=5 if thorough else 3,
-                                    SHAPES='{"par", "tet"}')),
-            ("c33_corners_soc_terms", dict(KINDS='{"SOC"}', NWS="{1}", MAXHOPS=1, MAXHOPS2=1, MAXSOC=1, KDIRS=2, NGRIDS=1))]
+    if thorough:
+        runs = [("c33_corners", dict(NWS="{1}", MAXHOPS=1, MAXHOPS2=1, MAXSOC=0, KDIRS=2, NGRIDS=5)),
+                ("c33_corners_nw2", dict(KINDS='{"R", "SOC"}', NWS="{2}", MAXHOPS=1, MAXHOPS2=1, MAXSOC=0, KDIRS=2, NGRIDS=1)),
+                ("c33_corners_3d", dict(KINDS='{"R", "KP"}', NWS="{1, 2}", MAXHOPS=1, KDIRS=3, NGRIDS=5)),
+                ("c33_corners_soc_terms", dict(KINDS='{"SOC"}', NWS="{1}", MAXHOPS=1, MAXHOPS2=1, MAXSOC=1, KDIRS=2, NGRIDS=3))]
+    else:
+        runs = [("c33_corners", dict(NWS="{1}", MAXHOPS=1, MAXHOPS2=1, MAXSOC=0, KDIRS=2, NGRIDS=2)),
+                ("c33_corners_3d", dict(KINDS='{"R", "KP"}', NWS="{2}", MAXHOPS=1, KDIRS=3, NGRIDS=2)),
+                ("c33_corners_soc_terms", dict(KINDS='{"SOC"}', NWS="{1}", MAXHOPS=1, MAXHOPS2=1, MAXSOC=1, KDIRS=2, NGRIDS=1))]
     maxdev = 0.0
     classes = {}
     for name, kw in runs:
